@@ -118,6 +118,47 @@ HistFailed(line) ==
    IF Len(line.obs) # Len(line.c.steps) THEN {"history_realised"}
    ELSE HistFold(line, 1, HInit(line.c), {}) \cup (IF ~line.docSame THEN {"document_unchanged"} ELSE {})
 
+-----------------------------------------------------------------------------
+(* Model fidelity (warnings, never violations): the serial histories are also run through the L2 model BodyStreamH    *)
+(* instantiated as the tree is (fresh encoder slices, the encoder's result assigned to the captured variable, JSON    *)
+(* the only encodable type, Close bound when deferred); what the harness saw of the real request after every step --   *)
+(* verdict, kind of reader and of GetBody installed, where the header / query default is, what a read yields -- is     *)
+(* compared with the model's state.                                                                                     *)
+M == INSTANCE BodyStreamH WITH EncoderBuffer <- "fresh", EncodeVar <- "captured", Encoders <- {"application/json"}, CloseBinding <- "at_defer"
+BranchSets(b, v) == ~Eq(WithDefaults(b, v), v)
+Reenc(s, v) == \/ Has(s, "oneOf") /\ \E i \in DOMAIN s.oneOf : BranchSets(s.oneOf[i], v)
+               \/ Has(s, "anyOf") /\ \E i \in DOMAIN s.anyOf : BranchSets(s.anyOf[i], v) /\ \A j \in 1..(i - 1) : ~Matches(s.anyOf[j], v)
+MCfg(r) == LET wd == WithDefaults(r.schema, r.v) IN
+   [mt |-> r.mt, valid |-> Valid(r.schema, IF r.skip THEN r.v ELSE wd, "asreq"), hasDef |-> ~Eq(wd, r.v), reenc |-> Reenc(r.schema, wd), skip |-> r.skip, preset |-> r.preset,
+    auth |-> CASE r.sec = "none" -> "none" [] r.sec = "pass_read" -> "read_pass" [] r.sec = "fail_read" -> "read_fail",
+    pq |-> r.pp.query, ph |-> r.pp.header]
+Diff(i, what, m, seen) == IF m = seen THEN {} ELSE {[step |-> i, what |-> what, model |-> m, seen |-> seen]}
+HClass(r, o) == IF r.pp.header = "present" THEN (IF o.hn = 1 THEN "client" ELSE "other")
+                ELSE IF o.hn = 0 THEN "absent" ELSE IF o.hn = 1 /\ "dh" \in DOMAIN o /\ Eq(o.dh, r.pdflt.header) THEN "dflt" ELSE "other"
+QClass(r, o, q0) == IF o.q = q0 THEN (IF r.pp.query = "present" THEN "client" ELSE "absent")
+                    ELSE IF "dq" \in DOMAIN o /\ Eq(o.dq, r.pdflt.query) THEN "dflt" ELSE "other"
+TextClass(r, text, sent, hasP, parsed) == IF text = sent \/ (hasP /\ Eq(parsed, r.v)) THEN "orig" ELSE IF text = "" THEN "empty"
+                                          ELSE IF hasP /\ Eq(parsed, WithDefaults(r.schema, r.v)) THEN "dflt" ELSE "other"
+RECURSIVE ModelFold(_, _, _)
+ModelFold(line, i, g) ==
+   IF i > Len(line.c.steps) THEN {}
+   ELSE LET s == line.c.steps[i]  r == line.c.reqs[s.r]  o == line.obs[i]  c == MCfg(r)
+            g2 == IF s.op = "V" THEN M!SerialValidate(g, s.r, c) ELSE M!HandlerRead(g, s.r) IN
+        (IF s.op = "V" THEN Diff(i, "verdict", g2.x[s.r].verdict, o.verdict)
+         ELSE Diff(i, "read", M!WhatARead(g, s.r)[1], TextClass(r, o.after, line.sent[s.r], "parsed" \in DOMAIN o, IF "parsed" \in DOMAIN o THEN o.parsed ELSE r.v))
+              \cup (IF g.x[s.r].gb.kind = "none" THEN {}
+                    ELSE Diff(i, "getbody", M!WhatGetBodyYields(g, s.r)[1],
+                              IF o.getbody = o.after THEN TextClass(r, o.after, line.sent[s.r], "parsed" \in DOMAIN o, IF "parsed" \in DOMAIN o THEN o.parsed ELSE r.v)
+                              ELSE TextClass(r, o.getbody, line.sent[s.r], FALSE, r.v))))
+        \cup Diff(i, "bodyKind", M!BodyKind(g2, s.r), o.bk) \cup Diff(i, "gbKind", M!GbKind(g2, s.r), o.gk)
+        \cup Diff(i, "header", g2.x[s.r].h, HClass(r, o)) \cup Diff(i, "query", g2.x[s.r].q, QClass(r, o, line.q0[s.r]))
+        \cup ModelFold(line, i + 1, g2)
+FidelityOK(line) ==
+   IF line.doc = "ok" /\ line.c.kind = "hist" /\ "obs" \in DOMAIN line /\ Len(line.obs) = Len(line.c.steps)
+   THEN LET d == ModelFold(line, 1, M!InitG([k \in DOMAIN line.c.reqs |-> MCfg(line.c.reqs[k])])) IN
+        d = {} \/ CSVWrite("%1$s", <<ToJson([case |-> line.case, what |-> "history differs from BodyStreamH", diffs |-> d, c |-> line.c])>>, "fidelity.ndjson")
+   ELSE TRUE
+
 Failed(line) ==
    IF line.doc # "ok" THEN {"document_rejected"}
    ELSE IF line.c.kind = "hist" THEN (IF "obs" \in DOMAIN line THEN HistFailed(line) ELSE {"no_panic"})
@@ -129,6 +170,6 @@ LineOK(line) ==
    bad = {} \/ CSVWrite("%1$s", <<ToJson([case |-> line.case, c |-> line.c, failed |-> bad,
                                            obs |-> [x \in (DOMAIN line) \ {"c", "case"} |-> line[x]],
                                            class |-> Class(line, bad)])>>, "violations.ndjson")
-Judge == l > 0 => LineOK(Trace[l])
+Judge == l > 0 => (LineOK(Trace[l]) /\ FidelityOK(Trace[l]))
 AllConsumed == TLCGet("stats").diameter = Len(Trace) + 1
 =============================================================================
